@@ -14,6 +14,75 @@ import summaries
 from props import harness as H
 
 
+import ast
+import re
+
+
+def val_of_key(k):
+    if isinstance(k, tuple) and k:
+        if k[0] == 'int':
+            return Int(k[1])
+        if k[0] == 'null':
+            return NULL
+        if k[0] == 'ref':
+            return Ref(k[1], k[2])
+        if k[0] == 'term':
+            return Term(k[1])
+    return None
+
+
+def base_off(it, v):
+    """pointer value -> (heap buffer object, byte offset) for  buf, &buf[3], buf + n, (buf + n) + m ..."""
+    if isinstance(v, Ref):
+        if v.loc[0] == 'term':
+            b = base_off(it, Term(v.loc[1]))
+            if b is None or v.path not in ('',):
+                return None
+            return b
+        if v.loc[0] != 'obj':
+            return None
+        if v.path == '':
+            return (v.loc, Int(0))
+        m = re.match(r'^\[(\d+)\]$', v.path)
+        if m:
+            return (v.loc, Int(int(m.group(1))))
+        return None
+    if isinstance(v, Term) and v.k and v.k[0] in ('+', '-') and len(v.k) == 3:
+        A, B = val_of_key(v.k[1]), val_of_key(v.k[2])
+        if A is None or B is None:
+            return None
+        ba = base_off(it, A)
+        if ba is not None and not isinstance(B, Ref):
+            return (ba[0], it.arith(v.k[0], ba[1], B))
+        if v.k[0] == '+':
+            bb = base_off(it, B)
+            if bb is not None and not isinstance(A, Ref):
+                return (bb[0], it.arith('+', bb[1], A))
+    return None
+
+
+def index_of_path(path):
+    """'[3]' or '[<repr of a value key>]' -> index value"""
+    if not (path.startswith('[') and path.endswith(']')):
+        return None
+    body = path[1:-1]
+    try:
+        return Int(int(body))
+    except ValueError:
+        pass
+    try:
+        return val_of_key(ast.literal_eval(body))
+    except (ValueError, SyntaxError):
+        return None
+
+
+def lkey(v):
+    lf = linform(v)
+    if lf is None:
+        return None
+    return (tuple(sorted(lf[0].items(), key=repr)), lf[1])
+
+
 def _cow(st, name):
     d = dict(st.ts.get(name, {}))
     st.ts[name] = d
@@ -111,6 +180,77 @@ class BufRule(H.CallbackRule):
         if isinstance(v, Ref) and v.path == '':
             _cow(st, 'blen')[v.loc] = l
 
+    # ---- positional content: segments (offset, length, what) written into a heap buffer
+    def parts(self, it, st, v):
+        if isinstance(v, Str):
+            return (('lit', v.text().split('\0')[0]),)
+        if isinstance(v, Ref) and v.loc[0] == 'obj' and v.path == '':
+            p = st.mem.get((v.loc, '#parts'))
+            if p is not None:
+                return p
+            c = self.content(it, st, v.loc)
+            if c is not None:
+                return c
+            return (('buf', v.loc, v.path),)
+        return (('val', vkey(v)),)
+
+    def content(self, it, st, obj):
+        segs = st.ts.get('segs', {}).get(obj)
+        end = st.ts.get('blen', {}).get(obj)
+        if not segs or end is None:
+            return None
+        endk = lkey(end)
+        cur = Int(0)
+        out = ()
+        for _ in range(len(segs) + 1):
+            if lkey(cur) == endk:
+                return out
+            nxt = [sg for sg in segs if sg[0] == lkey(cur)]
+            if not nxt:
+                return None
+            sg = nxt[-1]
+            out += sg[3]
+            cur = it.arith('+', cur, sg[2])
+        return None
+
+    def write(self, it, st, obj, off, length, part, with_nul, node, what):
+        sz = st.ts.get('bsize', {}).get(obj)
+        tot = it.arith('+', off, length)
+        if sz is not None:
+            self.oblige(it, st, what, sz, it.arith('+', tot, Int(1)) if with_nul else tot, node)
+        d = _cow(st, 'segs')
+        d[obj] = tuple(d.get(obj, ())) + ((lkey(off), off, length, part),)
+        if with_nul:
+            _cow(st, 'blen')[obj] = tot
+
+    def reset(self, st, obj):
+        _cow(st, 'segs').pop(obj, None)
+        st.mem.pop((obj, '#parts'), None)
+
+    def on_store(self, it, st, loc, path, v, node):
+        # a character stored by index: buf[i] = c, p[i] = c with p = buf + n
+        if not isinstance(v, Int) or not path.startswith('['):
+            return
+        if loc[0] == 'term':
+            b = base_off(it, Term(loc[1]))
+        elif loc[0] == 'obj':
+            b = (loc, Int(0))
+        else:
+            return
+        if b is None or b[0] not in st.ts.get('bsize', {}):
+            return
+        idx = index_of_path(path)
+        if idx is None:
+            return
+        pos = it.arith('+', b[1], idx)
+        if v.v == 0:
+            sz = st.ts['bsize'][b[0]]
+            self.oblige(it, st, 'terminator stored into the buffer', sz, it.arith('+', pos, Int(1)), node)
+            _cow(st, 'blen')[b[0]] = pos
+        else:
+            self.write(it, st, b[0], pos, Int(1), (('lit', chr(v.v & 0xff)),), False, node, 'character stored into the buffer')
+            _cow(st, 'blen').pop(b[0], None)
+
     def oblige(self, it, st, what, size, written, node, kind='overflow'):
         self.obligations += 1
         r = self.prove_ge(it, st, size, written)
@@ -163,6 +303,8 @@ def hooks(rule, env, base=None):
                 l = Term(('pure', 'strlen', vkey(rv)))
                 _cow(s, 'blen')[rv.loc] = l
                 _cow(s, 'bsize')[rv.loc] = it.arith('+', l, Int(1))
+                s.mem[(rv.loc, '#parts')] = (('json', vkey(args[0]), vkey(args[1])),)
+                s.trace.append(('api', 'json_dumps#', rv, list(args), node_loc(node)))
         return out
     h['json_dumps'] = h_dumps
 
@@ -175,6 +317,8 @@ def hooks(rule, env, base=None):
                     l = Term(('pure', 'strlen', vkey(o)))
                     _cow(s, 'blen')[o.loc] = l
                     _cow(s, 'bsize')[o.loc] = it.arith('+', l, Int(1))
+                    s.mem[(o.loc, '#parts')] = (('b64url', rule.parts(it, s, args[1])),)
+                    s.trace.append(('api', 'enc', o, [args[1]], node_loc(node)))
                     rule.fact_ge(rv, l)          # established by C11 (url-and-length): the result is at least the text's length
                     rule.nonneg.add(('term', rv.k))
         return out
@@ -189,63 +333,122 @@ def hooks(rule, env, base=None):
 
     def h_strcpy(it, st, args, node):
         dst, src = args[0], args[1]
-        sz, l = rule.size_of(st, dst), rule.len_of(it, st, src, node)
-        if sz is not None and l is not None:
-            rule.oblige(it, st, 'strcpy into the buffer', sz, it.arith('+', l, Int(1)), node)
-        if l is not None:
-            rule.set_len(st, dst, l)
+        b = base_off(it, dst)
+        l = rule.len_of(it, st, src, node)
+        if b is not None and b[0] in st.ts.get('bsize', {}) and l is not None:
+            if lkey(b[1]) == lkey(Int(0)):
+                rule.reset(st, b[0])
+            rule.write(it, st, b[0], b[1], l, rule.parts(it, st, src), True, node, 'strcpy into the buffer')
         return M.h_strcpy(it, st, args, node)
     h['strcpy'] = h_strcpy
 
     def h_strcat(it, st, args, node):
         dst, src = args[0], args[1]
-        sz, l0, l1 = rule.size_of(st, dst), rule.len_of(it, st, dst, node), rule.len_of(it, st, src, node)
-        if sz is not None and l0 is not None and l1 is not None:
-            tot = it.arith('+', l0, l1)
-            rule.oblige(it, st, 'strcat onto the buffer', sz, it.arith('+', tot, Int(1)), node)
-            rule.set_len(st, dst, tot)
+        b = base_off(it, dst)
+        if b is not None and b[0] in st.ts.get('bsize', {}):
+            l0 = st.ts.get('blen', {}).get(b[0])
+            l1 = rule.len_of(it, st, src, node)
+            if l0 is None or l1 is None:
+                raise Unsupported('strcat onto a buffer of unknown length at %s:%s' % node_loc(node))
+            rule.write(it, st, b[0], l0, l1, rule.parts(it, st, src), True, node, 'strcat onto the buffer')
         return model['strcat'](it, st, args, node)
     h['strcat'] = h_strcat
 
-    def h_sprintf(it, st, args, node):
-        dst, fmt = args[0], args[1]
-        sz = rule.size_of(st, dst)
-        if sz is not None:
-            if not isinstance(fmt, Str):
-                raise Unsupported('sprintf with a computed format at %s:%s' % node_loc(node))
-            text = fmt.text().split('\0')[0]
-            tot = Int(0)
-            i = 0
-            ai = 2
-            while i < len(text):
-                if text[i] == '%' and i + 1 < len(text):
-                    if text[i + 1] == '%':
-                        tot = it.arith('+', tot, Int(1))
-                    elif text[i + 1] == 's' and ai < len(args):
-                        l = rule.len_of(it, st, args[ai], node)
-                        if l is None:
-                            raise Unsupported('sprintf %%s of an untracked string at %s:%s' % node_loc(node))
-                        tot = it.arith('+', tot, l)
-                        ai += 1
-                    else:
-                        raise Unsupported('sprintf conversion %%%s at %s:%s' % ((text[i + 1],) + tuple(node_loc(node))))
-                    i += 2
+    def fmt_segments(it, st, fmt, fargs, node):
+        if not isinstance(fmt, Str):
+            raise Unsupported('printf-style call with a computed format at %s:%s' % node_loc(node))
+        text = fmt.text().split('\0')[0]
+        segs = []
+        i = 0
+        ai = 0
+        lit = ''
+        while i < len(text):
+            if text[i] == '%' and i + 1 < len(text):
+                if text[i + 1] == '%':
+                    lit += '%'
+                elif text[i + 1] == 's' and ai < len(fargs):
+                    if lit:
+                        segs.append((Int(len(lit)), (('lit', lit),)))
+                        lit = ''
+                    l = rule.len_of(it, st, fargs[ai], node)
+                    if l is None:
+                        raise Unsupported('%%s of an untracked string at %s:%s' % node_loc(node))
+                    segs.append((l, rule.parts(it, st, fargs[ai])))
+                    ai += 1
                 else:
-                    tot = it.arith('+', tot, Int(1))
-                    i += 1
-            rule.oblige(it, st, 'sprintf into the buffer', sz, it.arith('+', tot, Int(1)), node)
-            rule.set_len(st, dst, tot)
+                    raise Unsupported('conversion %%%s at %s:%s' % ((text[i + 1],) + tuple(node_loc(node))))
+                i += 2
+            else:
+                lit += text[i]
+                i += 1
+        if lit:
+            segs.append((Int(len(lit)), (('lit', lit),)))
+        return segs
+
+    def emit(it, st, obj, off, segs, node, what):
+        if lkey(off) == lkey(Int(0)):
+            rule.reset(st, obj)
+        cur = off
+        for k_, (l, part) in enumerate(segs):
+            rule.write(it, st, obj, cur, l, part, k_ == len(segs) - 1, node, what)
+            cur = it.arith('+', cur, l)
+        if not segs:
+            rule.write(it, st, obj, off, Int(0), (), True, node, what)
+        return cur
+
+    def h_sprintf(it, st, args, node):
+        b = base_off(it, args[0])
+        if b is not None and b[0] in st.ts.get('bsize', {}):
+            segs = fmt_segments(it, st, args[1], args[2:], node)
+            end = emit(it, st, b[0], b[1], segs, node, 'sprintf into the buffer')
+            return [(st, it.arith('-', end, b[1]))]
         return model['sprintf'](it, st, args, node)
     h['sprintf'] = h_sprintf
 
+    def h_snprintf(it, st, args, node):
+        b = base_off(it, args[0])
+        if b is not None and b[0] in st.ts.get('bsize', {}):
+            segs = fmt_segments(it, st, args[2], args[3:], node)
+            tot = Int(0)
+            for l, part in segs:
+                tot = it.arith('+', tot, l)
+            # the bound protects the buffer if it is not larger than what is left of it; the content is the untruncated text only if
+            # the bound is known to suffice
+            sz = st.ts['bsize'][b[0]]
+            rule.obligations += 1
+            fits = rule.prove_ge(it, st, sz, it.arith('+', b[1], args[1]))
+            if fits is False:
+                rule.viol.append(('overflow', 'snprintf bound %s exceeds the %s bytes of the buffer' % (show(args[1]), show(sz)),
+                                  node_loc(node), it.frames[-1] if it.frames else '?'))
+            enough = rule.prove_ge(it, st, args[1], it.arith('+', tot, Int(1)))
+            if enough is not True:
+                raise Unsupported('snprintf at %s:%s may truncate (bound %s, text %s + 1)' % (node_loc(node) + (show(args[1]), show(tot))))
+            save = rule.obligations
+            emit(it, st, b[0], b[1], segs, node, 'snprintf into the buffer')
+            rule.obligations = save
+            return [(st, tot)]
+        return M.h_snprintf(it, st, args, node)
+    h['snprintf'] = h_snprintf
+
     def h_memcpy(it, st, args, node):
         dst, src, cnt = args[0], args[1], args[2]
-        sz = rule.size_of(st, dst)
-        if sz is not None:
-            rule.oblige(it, st, 'memcpy into the buffer', sz, cnt, node)
-        ssz = rule.size_of(st, src)
-        if ssz is not None:
-            rule.oblige(it, st, 'memcpy out of the buffer', ssz, cnt, node, kind='overread')
+        b = base_off(it, dst)
+        if b is not None and b[0] in st.ts.get('bsize', {}):
+            l = rule.len_of(it, st, src, node) if isinstance(src, (Ref, Str)) else None
+            part, nul = (('val', 'bytes copied by memcpy'),), False
+            if l is not None:
+                if lkey(cnt) == lkey(l):
+                    part = rule.parts(it, st, src)
+                elif lkey(cnt) == lkey(it.arith('+', l, Int(1))):
+                    part, nul = rule.parts(it, st, src), True
+            if lkey(b[1]) == lkey(Int(0)) and not st.ts.get('segs', {}).get(b[0]):
+                rule.reset(st, b[0])
+            rule.write(it, st, b[0], b[1], it.arith('-', cnt, Int(1)) if nul else cnt, part, nul, node, 'memcpy into the buffer')
+            if not nul:
+                _cow(st, 'blen').pop(b[0], None)
+        sb = base_off(it, src) if not isinstance(src, Str) else None
+        if sb is not None and sb[0] in st.ts.get('bsize', {}):
+            rule.oblige(it, st, 'memcpy out of the buffer', st.ts['bsize'][sb[0]], it.arith('+', sb[1], cnt), node, kind='overread')
         return model['memcpy'](it, st, args, node)
     h['memcpy'] = h_memcpy
     return h
